@@ -298,8 +298,8 @@ def generate(rng, idx, tier, variant):
     n_ops = rng.randint(5, 40 if tier == 'thorough' else 24)
     W = {
         'container': {'add_variable': 3, 'setattr': 5, 'setitem': 3, 'setitem_label': 2, 'setitem_slice': 2, 'set_pos': 2, 'replace_values': 2, 'set_values': 2, 'add_attribute': 1, 'set_attr_plain': 2, 'set_strict': 1, 'get': 2, 'spawn': 0.5, 'reindex': 0.3},
-        'labels': {'add_variable': 1, 'setattr': 1, 'setitem_label': 6, 'setitem_slice': 6, 'set_pos': 2, 'get': 4, 'setitem': 1, 'reindex': 1.5, 'reuse_key': 3, 'spawn': 0.5},
-        'copies': {'mutate_any': 5, 'add_variable': 2, 'setattr': 3, 'setitem_label': 1, 'setitem_slice': 1, 'set_pos': 3, 'replace_values': 1, 'set_values': 1, 'add_attribute': 1, 'set_attr_plain': 2, 'set_strict': 1, 'spawn': 5, 'mutate_list': 5, 'solve': 2, 'sub_poke': 2, 'reindex': 0.5},
+        'labels': {'add_variable': 1, 'setattr': 1, 'setitem_label': 6, 'setitem_slice': 6, 'set_pos': 2, 'get': 4, 'setitem': 1, 'reindex': 1.5, 'reuse_key': 3, 'spawn': 0.5, 'add_attribute': 0.6},
+        'copies': {'mutate_any': 5, 'add_variable': 2, 'setattr': 3, 'setitem_label': 1, 'setitem_slice': 1, 'set_pos': 3, 'replace_values': 1, 'set_values': 1, 'add_attribute': 1, 'set_attr_plain': 2, 'set_strict': 1, 'spawn': 5, 'mutate_list': 5, 'solve': 2, 'sub_poke': 2, 'reindex': 0.5, 'eval_name': 2.5},
         'reindex': {'mutate_any': 2, 'add_attribute': 2, 'add_variable': 3, 'setattr': 3, 'set_pos': 2, 'setitem_slice': 1, 'get': 1, 'reuse_key': 1, 'reindex': 6, 'solve': 2, 'set_strict': 1, 'spawn': 0.5, 'set_attr_plain': 1.5},
     }[variant]
     kinds, weights = zip(*sorted(W.items()))
@@ -384,11 +384,18 @@ def generate(rng, idx, tier, variant):
                 ops.append({'op': 'set_values', 'obj': p, 'value': {'k': 'matrix', 'shape': 'ok', 'base': g['base'] if variant != 'copies' else 500}, 'pool': (rng.randrange(2) if variant == 'copies' and rng.random() < 0.6 else None)})
             elif r < 0.65:
                 ops.append({'op': 'set_values', 'obj': p, 'value': {'k': 'matrix', 'shape': rng.choice(['rows+1', 'cols+1', 'flat', 'transposed']), 'base': g['base']}})
+            elif r < 0.72:
+                # the right shape, contents that cannot be stored in (some of) the series: fails inside the replacement
+                ops.append({'op': 'set_values', 'obj': p, 'value': {'k': 'matrix', 'shape': 'ok', 'content': rng.choice(['str', 'none']), 'base': g['base']}})
             else:
-                ops.append({'op': 'set_values', 'obj': p, 'value': {'k': 'scalar', 'e': rng.choice(['float', 'int', 'bool']), 'base': g['base']}})
+                ops.append({'op': 'set_values', 'obj': p, 'value': {'k': 'scalar', 'e': rng.choice(['float', 'int', 'bool', 'float', 'int', 'bool', 'longstr', 'none']), 'base': g['base']}})
         elif kind == 'add_attribute':
             nm_ = rng.choice(['note', 'meta', 'tag']) + str(rng.randrange(3)) if rng.random() < 0.7 else rng.choice(['model', 'models', 'sub', 'subs', 'submodel', 's', 'dels'])
-            ops.append({'op': 'add_attribute', 'obj': p, 'name': nm_, 'v': rng.randrange(100), 'shape': rng.choice(['int', 'int', 'list', 'dict', 'ndarray', 'tuple-of-list', 'tuple-of-ndarray', 'nested'])})
+            if variant == 'labels':
+                # (label histories: only the attribute that makes a later copy / reindex fail part-way is of interest)
+                ops.append({'op': 'add_attribute', 'obj': p, 'name': nm_, 'v': rng.randrange(100), 'shape': 'uncopyable'})
+                continue
+            ops.append({'op': 'add_attribute', 'obj': p, 'name': nm_, 'v': rng.randrange(100), 'shape': rng.choice(['int', 'int', 'list', 'dict', 'ndarray', 'tuple-of-list', 'tuple-of-ndarray', 'nested'] * 3 + ['uncopyable'])})
         elif kind == 'set_attr_plain':
             r = rng.random()
             if variant == 'reindex' and r < 0.6:
@@ -407,6 +414,11 @@ def generate(rng, idx, tier, variant):
             ops.append({'op': 'set_attr_plain', 'obj': p, 'name': nm, 'v': rng.randrange(100)})
         elif kind == 'set_strict':
             ops.append({'op': 'set_strict', 'obj': p, 'v': rng.random() < 0.6})
+        elif kind == 'eval_name':
+            # eval() of an expression naming a variable that this party or only some *other* party owns; some evaluations fail
+            pool_ = sorted({nm_ for lst in g['names'].values() for nm_, _dt in lst if nm_.isidentifier()})
+            if pool_:
+                ops.append({'op': 'eval_name', 'obj': p, 'name': rng.choice(pool_), 'fail': rng.random() < 0.4})
         elif kind == 'get':
             if not names:
                 continue
@@ -1083,23 +1095,40 @@ def execute(schedule, ctx):
                             party.sync()
                     else:
                         party.sync()
-                elif exp[stop][0] == 'fail':
-                    ctx.check('C09', 'replace_values/must-raise', e is not None, {'item': items[stop][0], 'value': items[stop][2]})
-                    invariants(party, ctx, 'replace_values')
-                    party.sync()
                 else:
-                    if e is not None and isinstance(items[stop][1], RC.Faulty) and items[stop][1].fired:
-                        # the data source of item `stop` failed while the bulk replacement was under way: items before
-                        # it hold their new values or (all-or-nothing) their old ones, everything else is as it was
-                        ctx.probe('bulk-replacement-interrupted-by-failing-source')
-                        earlier = {items[j][0]: exp[j][1] for j in range(stop)}
+                    if exp[stop][0] == 'fail':
+                        ctx.check('C09', 'replace_values/must-raise', e is not None, {'item': items[stop][0], 'value': items[stop][2]})
+                    if e is not None:
+                        # the bulk replacement stopped at item `stop`: every series holds what it held before or, for an
+                        # item with a well-formed value, its new contents - never anything else (whether the
+                        # implementation applies left to right, validates first, or rolls back)
+                        fired_ = isinstance(items[stop][1], RC.Faulty) and items[stop][1].fired
+                        if fired_:
+                            ctx.probe('bulk-replacement-interrupted-by-failing-source')
+                        wellformed = {}
+                        for j, (nm_, v_, vs_) in enumerate(items):
+                            if nm_ == 'nosuchvar' or isinstance(v_, RC.Faulty):
+                                continue
+                            c_, new_ = exp[j] if j < len(exp) else RC.expect_whole(party.ref[nm_], v_, n)
+                            if c_ == 'ok':
+                                wellformed[nm_] = new_
+                        maybe = set()
+                        for j, (nm_, v_, vs_) in enumerate(items):
+                            if nm_ == 'nosuchvar' or nm_ in wellformed:
+                                continue
+                            if (j == stop and exp[stop][0] == 'fail') or (isinstance(v_, RC.Faulty) and v_.fired):
+                                continue  # the item that cannot fit / whose source failed: as it was
+                            maybe.add(nm_)  # a value NumPy would accept with loss, or a working lazy source: either outcome
                         bad_ = []
                         for nm_, old_ in party.ref.items():
+                            if nm_ in maybe:
+                                continue
                             got_ = d.get('_' + nm_)
-                            okv = isinstance(got_, np.ndarray) and (RC.arrays_equal(got_, old_) or (nm_ in earlier and RC.arrays_equal(got_, earlier[nm_])))
+                            okv = isinstance(got_, np.ndarray) and (RC.arrays_equal(got_, old_) or (nm_ in wellformed and RC.arrays_equal(got_, wellformed[nm_])))
                             if not okv:
                                 bad_.append(nm_)
-                        ctx.check('C09', 'replace_values/failing-source/containment', not bad_, {'changed': bad_[:4], 'failed-item': items[stop][0]})
+                        ctx.check('C09', 'replace_values/' + ('failing-source' if fired_ else 'rejected') + '/containment', not bad_, {'changed': bad_[:4], 'failed-item': items[stop][0]})
+                        ctx.check('C10', 'write-path/rejected-bulk-replacement-garbled-a-series', not bad_, {'changed': bad_[:4], 'failed-item': items[stop][0]})
                     invariants(party, ctx, 'replace_values')
                     party.sync()
                 outcome = 'raised' if e is not None else 'ok'
@@ -1113,6 +1142,10 @@ def execute(schedule, ctx):
                 rows, cols = len(names), n
                 shp = {'ok': (rows, cols), 'rows+1': (rows + 1, cols), 'cols+1': (rows, cols + 1), 'flat': (rows * cols,), 'transposed': (cols, rows)}[vs['shape']]
                 mat = (np.arange(int(np.prod(shp)), dtype=float) + vs['base']).reshape(shp)
+                if vs.get('content') == 'str':
+                    mat = np.array([f'w{int(v_)}' for v_ in mat.ravel()]).reshape(shp)
+                elif vs.get('content') == 'none':
+                    mat = np.full(shp, None, dtype=object)
                 if vs['shape'] == 'ok' and op.get('pool') is not None:
                     # the caller assigns the very same 2-D array to several objects
                     key = ('M', op['pool'], rows, cols)
@@ -1131,10 +1164,15 @@ def execute(schedule, ctx):
                     ctx.check('C09', 'values-setter/failed-op-leaves-object-unchanged', O.obs(x) == before[i], None)
                     party.sync()
                 else:
-                    homog = current_shape == (rows, cols)
+                    homog = current_shape == (rows, cols) and not vs.get('content')
+                    if vs.get('content'):
+                        ctx.probe('values-setter:right-shape-unstorable-contents:' + ('raised' if e is not None else 'accepted'))
                     if homog:
                         ctx.check('C09', 'values-setter/must-succeed', e is None, {'exc': type(e).__name__ if e else None})
-                    if e is None:
+                    if e is None and vs.get('content'):
+                        invariants(party, ctx, 'values-setter')
+                        party.sync()
+                    elif e is None:
                         ok_all = True
                         for r_, nm in enumerate(names):
                             want = mat[r_].astype(party.ref[nm].dtype)
@@ -1242,6 +1280,24 @@ def execute(schedule, ctx):
                     if e is None:
                         ctx.check('C09', 'plain-attribute/stored', d.get(nm) == newval, None)
                     outcome = 'ok' if e is None else 'raised'
+
+        elif kind == 'eval_name':
+            nm = op['name']
+            expr = nm + (' + nosuchname_' if op['fail'] else '')
+            res = []
+            e = attempt(lambda: res.append(x.eval(expr)))
+            owned = nm in d['index'] and ('names' not in d or nm in d['names'])
+            if op['fail']:
+                ctx.check('C11', 'eval/undefined-name-must-raise', e is not None, {'expr': expr})
+                ctx.probe('eval-raised')
+            elif owned:
+                ok_ = e is None and isinstance(res[0], np.ndarray) and RC.arrays_equal(np.asarray(res[0]), d['_' + nm])
+                ctx.check('C11', 'eval/sees-its-own-data', ok_, {'name': nm, 'exc': type(e).__name__ if e else None})
+            elif nm not in d['index'] and nm not in d.get('aliases', {}) and not hasattr(x, nm):
+                # a name only another object owns: nothing of that object may be visible here
+                ctx.probe('eval-of-a-name-only-another-party-owns')
+                ctx.check('C11', 'eval/resolved-a-name-it-does-not-own', e is not None, {'name': nm, 'got': canon(np.asarray(res[0]).tolist()) if res else None})
+            outcome = 'raised' if e is not None else 'ok'
 
         elif kind == 'set_strict':
             x.strict = op['v']
@@ -1369,7 +1425,7 @@ def execute(schedule, ctx):
 
         elif kind == 'solve':
             if hasattr(x, 'solve') and n > 0:
-                if '_ctl' in d:
+                if hasattr(type(x), '_scripted') or '_ctl' in d or 'names' in d:
                     probes.get_ctl(x).arm({})
                 for sm in d.get('submodels', {}).values():
                     probes.get_ctl(sm).arm({})
@@ -1389,13 +1445,20 @@ def execute(schedule, ctx):
             outcome = do_reindex(fsic, parties, party, op, ctx, before[i], universe_spec, spec)
 
         # -------------------------------------------------------------- after every operation
-        for pj in parties:
-            invariants(pj, ctx, 'after-' + kind)
+        if kind != 'set_strict' and i < len(before):
+            # whatever an operation did or failed to do, `strict` is changed by its own setter only
+            ctx.check('C09', f'strict/changed-by-{kind}' + ('-that-raised' if 'raised' in str(outcome) else ''), bool(parties[i].obj.__dict__['_strict']) == bool(before[i]['strict']), {'before': before[i]['strict'], 'after': bool(parties[i].obj.__dict__['_strict'])})
+        if kind in ('spawn', 'reindex'):
+            # a spawn / reindex - completed or failed - must not change ANY pre-existing party, including its source
+            # (judged before the invariants below, which repair what they find broken)
+            for j in range(len(before)):
+                now = O.obs(parties[j].obj)
+                ctx.check('C11' if kind == 'spawn' else 'C12', f'{kind}/source-and-others-unchanged' + ('/after-failure' if 'raised' in str(outcome) else ''), now == before[j], {'party': j, 'paths': O.diff(before[j], now)[:5]})
         for key, arr in operand_pool.items():
             if not RC.arrays_equal(arr, operand_copy[key]):
                 ctx.check('C11', f'callers-array-changed/{kind}', False, {'pool': key[0]})
                 arr[:] = operand_copy[key]
-        values_size(party, ctx)
+        # (the other parties are judged before the invariants, which repair what they find broken)
         if kind == 'mutate_any':
             pass  # judged while the mutation was in place, then undone
         elif kind not in ('spawn', 'reindex'):
@@ -1407,10 +1470,6 @@ def execute(schedule, ctx):
                 if isinstance(lst, list) and undo[1] in lst:
                     lst.remove(undo[1])
         else:
-            # a spawn / reindex must not change ANY pre-existing party, including its source
-            for j in range(len(before)):
-                now = O.obs(parties[j].obj)
-                ctx.check('C11' if kind == 'spawn' else 'C12', f'{kind}/source-and-others-unchanged', now == before[j], {'party': j, 'paths': O.diff(before[j], now)[:5]})
             for cname, cls in classes.items():
                 if cname in class_before:
                     now = O.obs_class(cls)
@@ -1418,6 +1477,9 @@ def execute(schedule, ctx):
                     class_before[cname] = now
                 else:
                     class_before[cname] = O.obs_class(cls)
+        for pj in parties:
+            invariants(pj, ctx, 'after-' + kind)
+        values_size(party, ctx)
         ctx.outcome(kind, outcome)
         ctx.log(ctx.step, kind, i, outcome)
         ctx.state([kind, outcome, [[str(a.dtype), canon(a.tolist())] for a in party.ref.values()][:6], bool(d['_strict'])])
@@ -1437,7 +1499,16 @@ def attr_value(shape, v):
         return (np.arange(2, dtype=float) + v, {'k': v})
     if shape == 'nested':
         return {'weights': np.ones(2) * v, 'names': ['x', 'y'], 'pair': ([v], (v,))}
+    if shape == 'uncopyable':
+        # ordinary mutable contents next to something that cannot be deep-copied (a lock; likewise open files, generators)
+        import threading
+
+        return {'items': [v, v + 1], 'weights': np.ones(2) * v, 'guard': threading.Lock()}
     return v
+
+
+def has_uncopyable(x):
+    return any(isinstance(v, dict) and type(v.get('guard')).__name__ == 'lock' for v in x.__dict__.values())
 
 
 def _vclass(vs):
@@ -1474,6 +1545,11 @@ def do_spawn(fsic, parties, party, op, ctx, classes, class_before, spec):
             if y is None:
                 return 'skipped'
     except Exception as e:
+        if has_uncopyable(x) and route != 'sibling':
+            # the object carries something that cannot be copied: the copy may fail (the caller judges what is left behind)
+            ctx.probe('copy-of-uncopyable-attribute-raised')
+            ctx.fault('copy-failed-part-way')
+            return 'raised'
         ctx.check('C11', f'spawn/{route}/must-succeed', False, {'exc': type(e).__name__, 'msg': str(e)[:160]})
         return 'raised'
     ctx.probe(f'spawn:{route}:{party.fam}')
@@ -1719,6 +1795,10 @@ def do_reindex(fsic, parties, party, op, ctx, before_obs, universe_spec, spec):
         if y is None:
             return 'may-raised'
     sig = 'pandas-mixin' if pandas_mixin else 'base'
+    if y is None and has_uncopyable(x):
+        ctx.probe('reindex-of-uncopyable-attribute-raised')
+        ctx.fault('copy-failed-part-way')
+        return 'raised'
     if y is None:
         if not lossy:
             ctx.check('C12', f'{sig}/must-succeed', False, {'exc': type(e).__name__, 'msg': str(e)[:200], 'kw': canon(kw), 'relation': relation})
